@@ -12,8 +12,13 @@ use std::borrow::Cow;
 use std::convert::Infallible;
 use std::fmt::Display;
 
-const KEYWORDS: [&str; 9] = [
-    "use", "mod", "const", "type", "pub", "enum", "struct", "impl", "trait",
+/// strict and reserved keywords of all editions, none of them can be used as field name
+const KEYWORDS: [&str; 52] = [
+    "as", "break", "const", "continue", "crate", "else", "enum", "extern", "false", "fn", "for",
+    "if", "impl", "in", "let", "loop", "match", "mod", "move", "mut", "pub", "ref", "return",
+    "self", "static", "struct", "super", "trait", "true", "type", "unsafe", "use", "where", "while",
+    "async", "await", "dyn", "abstract", "become", "box", "do", "final", "macro", "override",
+    "priv", "typeof", "unsized", "virtual", "yield", "try", "gen", "Self",
 ];
 
 pub trait GeneratorSupplement<T> {
